@@ -21,9 +21,30 @@ mod native {
             Ok(p) => p,
             Err(_) => return,
         };
-        let txt = std::fs::read_to_string(&path).expect("cannot read VSYM_REPLAY file");
-        // minimal JSON parser for [[u8,...],...] (optionally wrapped in {"values": ...})
-        let start = txt.find("[[").or_else(|| txt.find("[]")).expect("no value list in replay file");
+        let txt = match std::fs::read_to_string(&path) {
+            Ok(t) => t,
+            Err(e) => {
+                eprintln!("vsym: cannot read VSYM_REPLAY file {path}: {e}");
+                std::process::exit(5);
+            }
+        };
+        // JSON: {"values": [[u8,...],...], ...} (whitespace allowed) or a bare [[...],...]
+        let start = match txt.find("\"values\"") {
+            Some(k) => match txt[k..].find('[') {
+                Some(o) => k + o,
+                None => {
+                    eprintln!("vsym: no value list in replay file");
+                    std::process::exit(5);
+                }
+            },
+            None => match txt.find('[') {
+                Some(o) => o,
+                None => {
+                    eprintln!("vsym: no value list in replay file");
+                    std::process::exit(5);
+                }
+            },
+        };
         let mut out: Vec<Vec<u8>> = Vec::new();
         let mut cur: Option<Vec<u8>> = None;
         let mut num: Option<u32> = None;
@@ -141,7 +162,7 @@ pub fn f64() -> f64 {
 
 macro_rules! arr {
     ($name:ident, $t:ty, $n:expr) => {
-        /// One nondeterministic object for the whole array (no harness-side loop under Kani).
+        /// One `kani::any::<[T; N]>()` for the whole array (no harness-side loop under Kani).
         #[inline(never)]
         pub fn $name<const N: usize>() -> [$t; N] {
             #[cfg(kani)]
@@ -150,11 +171,12 @@ macro_rules! arr {
             }
             #[cfg(not(kani))]
             {
-                let b = native::next(N * $n);
+                // Kani's concrete playback lists one byte vector per array element
                 let mut out = [0 as $t; N];
                 for i in 0..N {
+                    let b = native::next($n);
                     let mut a = [0u8; $n];
-                    a.copy_from_slice(&b[i * $n..(i + 1) * $n]);
+                    a.copy_from_slice(&b);
                     out[i] = <$t>::from_le_bytes(a);
                 }
                 out
